@@ -111,3 +111,101 @@ func runC14IdleWhileWritesFail(client bool, idle, wto time.Duration) error {
 	// C13 allows either; staying open for ever is what the idle timeout excludes)
 	return nil
 }
+
+// TestC14IdleTimeoutIsWhatWasConfigured: the idle timeout is a setting of its own. Here the node also sends
+// heartbeats (period left at its default or set to seconds - far longer than the idle timeout); the peer reads
+// everything and sends nothing: the channel must be closed with a timeout about one idle timeout after the
+// connection was made, not some multiple of another setting later.
+func TestC14IdleTimeoutIsWhatWasConfigured(t *testing.T) {
+	rec := evid.New(t, "C14", "TCP server or client endpoint with heartbeats enabled (period: default, 2 s or 5 s) and an idle timeout of 150..400 ms; the peer drains what it gets and never sends; the close event must carry a timeout and arrive no earlier than 0.7 idle timeouts and no later than 3 idle timeouts + 1.5 s after the connection was made (the upper limit is skipped when the process was stalled); non-trivial = always; distinct by hash of the parameters")
+	rec.Require("heartbeats-enabled-with-a-period-far-above-the-idle-timeout")
+	evid.Check(t, rec, evid.N(6, 30), func(t *rapid.T) {
+		drawNodeInit(t)
+		client := rapid.Bool().Draw(t, "node_is_tcp_client")
+		idle := time.Duration(rapid.IntRange(150, 400).Draw(t, "idle_timeout_ms")) * time.Millisecond
+		period := time.Duration(rapid.SampledFrom([]int{0, 2, 5}).Draw(t, "heartbeat_period_s")) * time.Second
+		desc := fmt.Sprintf("nodeIsTCPClient=%v idleTimeout=%v heartbeatPeriod=%v (0 = default)", client, idle, period)
+		if err := watchdog(scenarioLimit, func() error { return runC14IdleConfigured(client, idle, period) }); err != nil {
+			evid.ReplayNote("C14", "TestC14IdleTimeoutIsWhatWasConfigured", desc+"\n"+err.Error())
+			t.Fatalf("%s\n%v", desc, err)
+		}
+		rec.Case(true, evid.HashS(desc), "heartbeats-enabled-with-a-period-far-above-the-idle-timeout")
+		if rec.WantSample("idle-configured") {
+			rec.Sample("idle-configured", desc)
+		}
+	})
+}
+
+func runC14IdleConfigured(client bool, idle, period time.Duration) error {
+	port := sim.FreePort()
+	var ep gomavlib.EndpointConf = gomavlib.EndpointTCPServer{Address: sim.Addr(port)}
+	var l net.Listener
+	if client {
+		ep = gomavlib.EndpointTCPClient{Address: sim.Addr(port)}
+		var err error
+		if l, err = net.Listen("tcp4", sim.Addr(port)); err != nil {
+			return fmt.Errorf("BROKEN: listen: %v", err)
+		}
+		defer l.Close()
+	}
+	n := &gomavlib.Node{Endpoints: []gomavlib.EndpointConf{ep}, Dialect: ardupilotmega.Dialect, OutVersion: gomavlib.V2, OutSystemID: nodeSys,
+		IdleTimeout: idle, HeartbeatPeriod: period}
+	if err := initNode(&n); err != nil {
+		return fmt.Errorf("BROKEN: %v", err)
+	}
+	rec := sim.StartRecorder(n, sim.Pacing{Kind: "fast"}, nil)
+	defer func() {
+		closeNode(n, bound) //nolint:errcheck
+		rec.WaitClosed(bound)
+	}()
+	before := time.Now()
+	var conn net.Conn
+	var err error
+	if client {
+		l.(*net.TCPListener).SetDeadline(time.Now().Add(bound)) //nolint:errcheck
+		conn, err = l.Accept()
+	} else {
+		conn, err = net.DialTimeout("tcp4", sim.Addr(port), bound)
+	}
+	if err != nil {
+		return fmt.Errorf("BROKEN: no connection: %v", err)
+	}
+	after := time.Now()
+	defer conn.Close()
+	go func() { // the peer reads whatever comes and says nothing
+		buf := make([]byte, 4096)
+		for {
+			if _, err := conn.Read(buf); err != nil {
+				return
+			}
+		}
+	}()
+	closed := func(recs []sim.Rec) bool {
+		for _, e := range lifecycle(recs) {
+			if !e.open {
+				return true
+			}
+		}
+		return false
+	}
+	limit := 3*idle + 1500*time.Millisecond
+	ok := rec.WaitFor(limit+500*time.Millisecond, closed)
+	if !ok {
+		if stalls.StalledBetweenOver(before, time.Now(), 200*time.Millisecond) {
+			rec.WaitFor(bound, closed)
+			return nil // inconclusive: the process was held up
+		}
+		return fmt.Errorf("the peer has sent nothing for %v (idle timeout %v, heartbeats of the node every %v, 0 = default 5 s): the channel is still open", time.Since(after), idle, period)
+	}
+	for _, e := range lifecycle(rec.Snapshot()) {
+		if !e.open {
+			if !isTimeout(e.err) {
+				return fmt.Errorf("close event carries %v, a silent peer must be reported with a timeout", e.err)
+			}
+			if d := e.t.Sub(before); d < idle*7/10 {
+				return fmt.Errorf("closed %v after the connection attempt began, idle timeout %v", d, idle)
+			}
+		}
+	}
+	return nil
+}
